@@ -1,4 +1,92 @@
-"""Thorough tier extras (filled in as engines mature)."""
+"""Thorough tier: the quick rules plus (i) the engine self-test corpus, (ii) the same rules over facts
+extracted with -UNDEBUG (assert-sensitivity cross-check), (iii) replay of the stored seeded mutants of this
+property against a scratch copy of /repo's current working tree, to show on every run that the rules still fire."""
+import os, sys, json, glob, shutil, subprocess, tempfile, time
+import simlib, engine
+from simlib import VERIF
+
+
 def extra(run, mod):
-    if hasattr(mod, 'thorough'):
-        mod.thorough(run)
+    t0 = time.time()
+    # (i) self-test corpus
+    import selftest
+    try:
+        ok, lines = selftest.run_all()
+    except simlib.AnalysisBroken as e:
+        ok, lines = False, ['selftest could not run: %s' % e]
+    for l in lines:
+        print(l)
+    run.extra['selftest'] = {'ok': ok, 'lines': lines}
+    if not ok:
+        run.broke('engine self-test corpus failed (a rule can no longer fire, or fires on a negative twin)')
+
+    # (ii) -UNDEBUG cross-check
+    try:
+        fx2 = simlib.load_facts(extra_flags=['-UNDEBUG'])
+        r2 = engine.Run(run.prop, run.tier, fx2)
+        mod.check(r2)
+        a = {(i.rule, i.instance, i.construct): i.status for i in run.insts}
+        b = {(i.rule, i.instance, i.construct): i.status for i in r2.insts}
+        diff = sorted(k for k in set(a) | set(b) if a.get(k) != b.get(k))
+        run.extra['undebug_crosscheck'] = {
+            'instances_ndebug': len(a), 'instances_with_asserts': len(b), 'verdicts_differing': len(diff),
+            'differing': [{'rule': k[0], 'instance': k[1], 'construct': k[2], 'ndebug': a.get(k), 'with_asserts': b.get(k)} for k in diff[:20]],
+            'meaning': 'a verdict that differs holds only because an assert is compiled in or out; the NDEBUG verdict (the shipped library) is the one reported'}
+        print('%s thorough: -UNDEBUG cross-check: %d instances, %d verdicts differ from the NDEBUG run' % (run.prop, len(b), len(diff)))
+        for k in diff[:10]:
+            print('  ASSERT-SENSITIVE %s %s: ndebug=%s with-asserts=%s' % (k[0], k[2][:90], a.get(k), b.get(k)))
+    except simlib.AnalysisBroken as e:
+        run.extra['undebug_crosscheck'] = {'error': str(e)}
+        print('%s thorough: -UNDEBUG cross-check not possible: %s' % (run.prop, e))
+
+    # (iii) seeded mutants of this property
+    res = replay_mutants(run.prop)
+    run.extra['seeded_mutants'] = res
+    print('%s thorough: seeded mutants replayed on a scratch copy of the current tree: %d applied, %d reported, %d stale (patch no longer applies), %d not reported'
+          % (run.prop, res['applied'], res['fired'], res['stale'], res['applied'] - res['fired']))
+    for m in res['missed']:
+        print('  MUTANT-NOT-REPORTED %s (recorded as caught by %s)' % (m, run.prop))
+    run.extra['thorough_wall_s'] = round(time.time() - t0, 2)
+
+
+def replay_mutants(prop):
+    out = {'applied': 0, 'fired': 0, 'stale': 0, 'missed': [], 'cases': []}
+    if os.environ.get('VERIF_NO_EVIDENCE'):
+        return out      # we are ourselves a mutant run
+    metas = sorted(glob.glob(os.path.join(VERIF, 'seeded', '*', 'meta.json')))
+    for mp in metas:
+        try:
+            meta = json.load(open(mp))
+        except Exception:
+            continue
+        if prop not in meta.get('caught_by', []):
+            continue
+        patch = os.path.join(os.path.dirname(mp), 'patch.diff')
+        tmp = tempfile.mkdtemp(prefix='verif-mutant-')
+        try:
+            dst = os.path.join(tmp, 'repo')
+            os.makedirs(dst)
+            for sub in ('src', 'include', 'CMakeLists.txt'):
+                s = os.path.join(simlib.REPO, sub)
+                if os.path.isdir(s):
+                    shutil.copytree(s, os.path.join(dst, sub))
+                else:
+                    shutil.copy(s, os.path.join(dst, sub))
+            r = subprocess.run(['patch', '-p1', '-s', '-f', '-d', dst, '-i', patch], capture_output=True, text=True)
+            if r.returncode != 0:
+                out['stale'] += 1
+                out['cases'].append({'seed': meta['id'], 'result': 'stale'})
+                continue
+            out['applied'] += 1
+            env = dict(os.environ, VERIF_REPO=dst, VERIF_NO_EVIDENCE='1', VERIF_TIER='quick')
+            p = subprocess.run([os.path.join(VERIF, 'check'), prop, '--tier', 'quick'], capture_output=True, text=True, env=env)
+            fired = p.returncode == 1
+            first = next((l for l in p.stdout.splitlines() if ': [' in l), '')
+            if fired:
+                out['fired'] += 1
+            else:
+                out['missed'].append(meta['id'])
+            out['cases'].append({'seed': meta['id'], 'result': 'reported' if fired else 'rc=%d' % p.returncode, 'first_report': first.replace(dst, '/repo')[:240]})
+        finally:
+            shutil.rmtree(tmp, ignore_errors=True)
+    return out
